@@ -118,7 +118,7 @@ def guard(desc, J: np.ndarray, dname: str, orders=None):
         tol = lam.max() * m * 1.1920929e-07  # the implementation uses torch.finfo().eps (float32) whatever the dtype
         if ((lam > 0.01 * tol) & (lam < 100 * tol)).any():
             return "alignedmtl_rank_ambiguous"
-        if dname == "float32" and (lam.min() / lam.max() < 1e-4) and (lam > 100 * tol).all():
+        if dname == "float32" and (lam.min() / lam.max() < 1e-3) and (lam > 100 * tol).all():
             return "alignedmtl_ill_conditioned_float32"
         return None
     if name == "Krum":
